@@ -7,7 +7,8 @@ PROPS_MODULE = "Props.C04"
 THEOREMS = ["default_wf_core", "wf_core_is_certificate", "default_wf_struct", "generations_identical",
             "default_closed_form_is_solution", "default_closed_form_initial", "default_solution_unique"]
 REQUIRED = ["Props/C04.v", "Proofs/CertDefault/DigestVal.v"]
-TRANSLATORS = ["tr_data", "tr_tables"]
+TRANSLATORS = ["tr_data", "tr_tables", "tr_pure"]
+SHAPE_KEYS = ["load_dataset"]
 PARTIAL = ["float-vs-exact contribution bound (5e-12) is checked numerically in the correspondence "
            "stream 'float_vs_exact' and stated as theorem default_data_error only once Proofs/FloatData.v is in"]
 TRUSTED_BASE = [
@@ -94,6 +95,29 @@ def correspondence(ctx):
         viol.append({"name": "digest", "found_input": True, "key": "digest:" + ",".join(dis),
                      "payload": {"broken": "the data the running library holds differs from the translated modules",
                                  "components": dis, "coq": cd, "impl": impl["digest"]}})
+    # float decay constants: the generated load_dataset formula (PrimFloat) vs the array the library holds
+    import coqcases as Q
+    import corr_units as U
+    names, _ = U.dataset_names()
+    pre = ("From Coq Require Import ZArith NArith List PrimFloat.\nImport ListNotations.\n"
+           "From RD Require Import Base Lib.Py Model.Dataset Model.Default Model.Units Model.UnitsCheck.\n"
+           "Definition lam := Eval vm_compute in default_lam Default.\n"
+           "Definition chk (c : nat * float) : bool := feq (nth (fst c) lam nan) (snd c).\n")
+    terms = [f"({i}%nat, {Q.fhex(float.fromhex(h))})" for i, h in enumerate(impl["decay_consts_hex"])]
+    if C.vo_ok("Model/UnitsCheck.v"):
+        bad, errs = Q.run_cases("lam", pre, "nat * float", terms, "chk", shard=800)
+        streams["float_decay_constants"] = {"cases": len(terms), "model_disagrees": len(bad), "coq_errors": len(errs),
+                                            "exhaustive": True,
+                                            "what": "ln2 / time_unit_conv(half-life, unit, 's', year) in PrimFloat vs scipy_data.decay_consts, all nuclides"}
+        import math
+        for i in bad[:3]:
+            viol.append({"name": f"decay-const-{i}", "found_input": True, "key": f"lam:{names[i]}",
+                         "payload": {"fails": "float decay constant held by the library is not ln2 / (listed half-life in seconds)",
+                                     "input": names[i], "impl": impl["decay_consts_hex"][i],
+                                     "entry": "load_dataset(...).scipy_data.decay_consts"}})
+        if errs:
+            viol.append({"name": "lam-coq", "found_input": False, "key": "lam-coq",
+                         "payload": {"broken": "model evaluation failed in Coq", "errors": errs[:2]}})
     return {"streams": streams, "violations": viol, "samples": samples}
 
 
